@@ -122,7 +122,7 @@ Lemma ev_usages_spread s p n d l : ev_usages s (ESpread p n d l) = [].
 Proof. reflexivity. Qed.
 Lemma ev_usages_inline s a b c d e : ev_usages s (EInline a b c d e) = [].
 Proof. reflexivity. Qed.
-Lemma ev_usages_selset s a b : ev_usages s (ESelSet a b) = [].
+Lemma ev_usages_selset s a l b : ev_usages s (ESelSet a l b) = [].
 Proof. reflexivity. Qed.
 
 Lemma sel_usages_names s x : forall y ty_ parent cf,
